@@ -92,13 +92,13 @@ structure Inv (c : Cfg) (s : State) : Prop where
   downPre : s.phase = .reading ∨ s.phase = .dialing →
     s.down.held = [] ∧ s.down.delivered = [] ∧ s.dropped = 0
   downReading : s.phase = .reading → s.down.taken = 0
-  downGran : s.phase = .dialing → s.down.taken ≤ c.replyLen + c.replyBody + (c.replyGran - 1)
+  downGran : s.phase = .dialing → s.down.taken ≤ c.replyLen + (c.replyGran - 1)
   replyLe : s.phase = .replied ∨ s.phase = .tunnel ∨ s.phase = .closed →
     c.replyLen + s.dropped ≤ s.down.taken
   downCons : s.phase = .replied ∨ s.phase = .tunnel ∨ s.phase = .closed →
     s.down.delivered ++ s.down.held ++ s.down.written.drop s.down.taken =
       s.down.written.drop (c.replyLen + s.dropped)
-  dropLe : s.dropped ≤ c.replyBody + (c.replyGran - 1)
+  dropLe : s.dropped ≤ c.replyGran - 1
   dropKeep : c.replyKeep = true → s.dropped = 0
   eofUp : s.up.eof = true → s.up.fin = true ∧ s.up.done = true ∧ s.up.avail = 0
   eofDown : s.down.eof = true → s.down.fin = true ∧ s.down.done = true ∧ s.down.avail = 0
